@@ -111,9 +111,91 @@ def func_body(txt, header_re, what):
     raise GenError("unbalanced braces in " + what)
 
 
+def _walk(n):
+    yield n
+    for ch in n.get("inner", []) or []:
+        yield from _walk(ch)
+
+
+def read_domain_ast():
+    """clang AST of harness/c12_ast.C against the current tree: for IntFactorDom<GivRandom> (the instantiation) the non-static data
+    members, what the value constructor gives them, and what the COPY constructor (implicit or hand-written) and operator= do with
+    each of them.  -> dict; raises GenError when clang fails or the class is not found."""
+    import subprocess
+    src = os.path.join(vf.ROOT, "harness", "c12_ast.C")
+    cmd = ["clang++", "-std=gnu++11", "-fsyntax-only", "-w", "-DHAVE_CONFIG_H", "-DGIVARO_VERIF"] + vf.inc_flags() + \
+          ["-Xclang", "-ast-dump=json", "-Xclang", "-ast-dump-filter=IntFactorDom", src]
+    try:
+        p = subprocess.run(cmd, stdout=subprocess.PIPE, stderr=subprocess.PIPE, universal_newlines=True, timeout=900)
+    except (OSError, subprocess.TimeoutExpired) as e:
+        raise GenError("clang AST dump of harness/c12_ast.C did not run: %s" % e)
+    if p.returncode != 0:
+        raise GenError("clang AST dump of harness/c12_ast.C failed: " + p.stderr[-600:])
+    out, dec, i, spec = p.stdout, json.JSONDecoder(), 0, None
+    while i < len(out):
+        while i < len(out) and out[i].isspace():
+            i += 1
+        if i >= len(out):
+            break
+        o, i = dec.raw_decode(out, i)
+        if o.get("kind") == "ClassTemplateSpecializationDecl" and o.get("name") == "IntFactorDom":
+            spec = o
+    if spec is None:
+        raise GenError("the instantiation IntFactorDom<GivRandom> is not in the clang AST")
+    D = {"fields": [], "types": {}, "value_ctor": {}, "copy_ctor": {}, "copy_ctor_user": None, "assign_user": None, "assign": {}}
+    for ch in spec.get("inner", []):
+        if ch.get("kind") == "FieldDecl":
+            D["fields"].append(ch["name"]); D["types"][ch["name"]] = ch["type"]["qualType"]
+
+    def inits(ctor):
+        r = {}
+        for x in ctor.get("inner", []):
+            if x.get("kind") != "CXXCtorInitializer":
+                continue
+            tgt = (x.get("anyInit") or {}).get("name") or "base:" + (x.get("baseInit") or {}).get("qualType", "?")
+            how = ("default", None)
+            for n in _walk(x):
+                k = n.get("kind")
+                if k == "MemberExpr":
+                    how = ("from_source", n.get("name")); break
+                if k == "IntegerLiteral":
+                    how = ("literal", int(n.get("value"))); break
+                if k == "StringLiteral":
+                    how = ("literal", int_lit(n.get("value", "").strip('"'))); break
+                if k == "DeclRefExpr" and tgt.startswith("base:"):
+                    how = ("from_source", "base"); break
+                if k == "DeclRefExpr" and (n.get("referencedDecl") or {}).get("kind") == "ParmVarDecl":
+                    how = ("parameter", (n.get("referencedDecl") or {}).get("name")); break
+            r[tgt] = how
+        return r
+    for ch in spec.get("inner", []):
+        if ch.get("kind") == "CXXConstructorDecl":
+            q = ch.get("type", {}).get("qualType", "")
+            if re.match(r"void \(const [^)]*IntFactorDom<[^)]*> &\)", q):
+                D["copy_ctor_user"] = not ch.get("isImplicit", False)
+                D["copy_ctor"] = inits(ch)
+                D["copy_ctor_has_body"] = any(x.get("kind") == "CompoundStmt" for x in ch.get("inner", []))
+            elif "&&" not in q and not ch.get("isImplicit", False):
+                D["value_ctor"] = inits(ch)
+        if ch.get("kind") == "CXXMethodDecl" and ch.get("name") == "operator=" and "&&" not in ch.get("type", {}).get("qualType", ""):
+            D["assign_user"] = not ch.get("isImplicit", False)
+            if D["assign_user"]:
+                for n in _walk(ch):        # members assigned in a hand-written operator=:  m = F.m
+                    if n.get("kind") in ("BinaryOperator", "CXXOperatorCallExpr") and (n.get("opcode") == "=" or n.get("kind") == "CXXOperatorCallExpr"):
+                        ms = [m.get("name") for m in _walk(n) if m.get("kind") == "MemberExpr"]
+                        if len(ms) >= 2 and ms[0] == ms[1]:
+                            D["assign"][ms[0]] = ("from_source", ms[0])
+    if D["copy_ctor_user"] is None or not D["copy_ctor"]:
+        raise GenError("no copy constructor of IntFactorDom<GivRandom> in the clang AST (is it deleted?)")
+    return D
+
+
 def gen_tables():
     """-> (coq text, dict of constants).  Raises GenError when the source left the translated shape."""
     K = {}
+    K["DOM"] = read_domain_ast()
+    if sorted(K["DOM"]["fields"]) != sorted(["PROD_first_primes", "PROD_second_primes", "_g"]):
+        raise GenError("IntFactorDom<> has data members the model does not carry: %s" % K["DOM"]["fields"])
     ph, pc = read_src("prime_h"), read_src("prime_C")
     mac = macros_of(ph)
     mac.update(macros_of(pc))
@@ -229,6 +311,9 @@ def gen_tables():
     if not m1 or not m2:
         raise GenError("cannot find PROD_first_primes / PROD_second_primes initialisers")
     K["PROD_FIRST"], K["PROD_SECOND"] = int(m1.group(1)), int(m2.group(1))
+    vc = K["DOM"]["value_ctor"]
+    if vc.get("PROD_first_primes") != ("literal", K["PROD_FIRST"]) or vc.get("PROD_second_primes") != ("literal", K["PROD_SECOND"]):
+        raise GenError("the constructor initialisers of the primorials in the clang AST (%s, %s) differ from the source text" % (vc.get("PROD_first_primes"), vc.get("PROD_second_primes")))
     for name, key in (("factor_first_primes", "FIRST"), ("factor_second_primes", "SECOND")):
         m = re.search(r"#\s*define\s+%s\s*\(\s*tmp\s*,\s*n\s*\)\s*\(\s*tmp\s*=(.*)$" % name, fhc, flags=re.M)
         if not m:
@@ -314,6 +399,15 @@ def coq_of_tables(K):
     for s in ("ISPRIME_HAS_GUARD", "IPP_NEG_GUARD", "IPP_RECURSE", "PRIMEFACTOR_GUARD", "SET1_ABS",
               "FACTOR_INPLACE_GUARD", "POLLARD_INPLACE_GUARD", "LENSTRA_INPLACE_GUARD", "MILLER_NONZERO"):
         L.append("Definition %s : bool := %s." % (s, "true" if K[s] else "false"))
+    L.append("Inductive copy_how : Set := FromSource | Literal (z : Z) | DefaultInit | Untouched.")
+    D = K["DOM"]
+
+    def how(h):
+        return {"from_source": "FromSource", "default": "DefaultInit", "parameter": "DefaultInit"}.get(h[0]) or ("Literal (%d)" % h[1] if h[1] is not None and h[1] >= 0 else "DefaultInit")
+    for fld, nm in (("PROD_first_primes", "FIRST"), ("PROD_second_primes", "SECOND"), ("_g", "GEN")):
+        L.append("Definition COPY_%s : copy_how := %s." % (nm, how(D["copy_ctor"].get(fld, ("default", None)))))
+        L.append("Definition ASSIGN_%s : copy_how := %s." % (nm, "FromSource" if (not D["assign_user"] or fld in D["assign"]) else "Untouched"))
+    L.append("Definition COPY_CTOR_USER_PROVIDED : bool := %s." % ("true" if D["copy_ctor_user"] else "false"))
     for s in ("IP", "IP2", "PP_PRIMES", "PRIMES16"):
         L.append("Definition %s : list Z :=\n  %s." % (s, coq_list(K[s])))
     for s in ("FIRST_TESTS", "SECOND_TESTS"):
@@ -710,6 +804,25 @@ def path_name(events):
     return s
 
 
+def scripted_grid(rng, K, add):
+    """the scripted Pollard paths of the operation grid that is run on every copy of the domain"""
+    M7 = {103: 1, 109: 1, 127: 1, 139: 1, 151: 1, 157: 1, 163: 1}
+    N6 = {101: 1, 103: 1, 107: 1, 109: 1, 113: 1, 127: 1}
+    for f in (N6, M7, {101: 1, 103: 1}):
+        n = prod_fac(f)
+        for d in range(0, min(len(f) - 1, 4)):
+            for v in ("s.iffactorprime", "s.primefactor", "s.set2", "s.divisors"):
+                sim = ScriptSim(K, ["composite"] * d + ["prime"], 3, greedy=v in ("s.set2", "s.divisors"))
+                (sim.iffactorprime if v in ("s.iffactorprime", "s.primefactor") else sim.set2)(n, 0)
+                add(v, [n, 0] + sim.ys + list(range(900, 912)), "scripted", f, path_name(sim.events))
+    sim = ScriptSim(K, ["restart", "prime"], 0)
+    sim.iffactorprime(103 * 109, 0)
+    add("s.iffactorprime", [103 * 109, 0] + sim.ys + list(range(900, 912)), "scripted", {103: 1, 109: 1}, path_name(sim.events))
+    sim = ScriptSim(K, ["one"], 0)
+    sim.iffactorprime(prod_fac(N6), 7)
+    add("s.iffactorprime", [prod_fac(N6), 7] + sim.ys + list(range(900, 912)), "scripted", N6, path_name(sim.events))
+
+
 def scripted_cases(rng, K, add, thorough):
     """deterministic part: every path class on fixed n, for every seed; plus the same plans on seed-dependent n"""
     P = [x for x in SMALLP if 101 <= x <= 499]
@@ -838,8 +951,8 @@ def gen_cases(rng, tier, chk, K=None):
     thorough = tier != "quick"
     C = []
 
-    def add(v, args, kind, fac=None, klass=""):
-        C.append({"v": v, "args": list(args), "kind": kind, "fac": fac, "klass": klass})
+    def add(v, args, kind, fac=None, klass="", way=None):
+        C.append({"v": v, "args": list(args), "kind": kind, "fac": fac, "klass": klass, "way": way})
 
     # ---- A. exhaustive over the tabulated range (one line each)
     add("range", [0, 65536], "range", klass="exhaustive [0,65536)")
@@ -1075,6 +1188,44 @@ def gen_cases(rng, tier, chk, K=None):
         for p, e in fz.items():
             a += [p, e]
         add("divisors.lf.alias", a, "divlf", fz, "in place")
+    # ---- G. every domain object of the property obtained in every way, run through the deterministic operation grid
+    if K:
+        grid = []
+
+        def gadd(v, args, kind, fac=None, klass=""):
+            grid.append((v, list(args), kind, fac, klass))
+        for n in (-1, 0, 1, 2, 3, 4, 32749, 32767, 32768, 32771, 65521, 65535, 65536, 65537, 4294967291, (1 << 61) - 1, 561, 4295098369):
+            gadd("isprime", [n], "isprime", klass="n>=2^16" if n >= 65536 else ("n<0" if n < 0 else "n<2^16"))
+            gadd("isprime.fd", [n], "isprime", klass="n>=2^16" if n >= 65536 else ("n<0" if n < 0 else "n<2^16"))
+        gadd("range", [32700, 32800], "range", klass="table boundary")
+        gadd("range", [65480, 65600], "range", klass="table boundary")
+        for p in (0, 1, 2, 3, 4, 10, 32749, 32768, 65521, 65536, 1 << 32):
+            for v in ("next.na", "next.alias", "next.in", "prev.na", "prev.alias", "prev.in"):
+                gadd(v, [p], "np", klass="p<=3" if p <= 3 else ("p<2^16+" if p < 65600 else "large p"))
+        fgrid = [({2: 1, 3: 1}, "first primorial"), ({7: 2}, "first primorial"), ({23: 1, 10007: 1}, "first primorial"),
+                 ({29: 1, 31: 1}, "second primorial only"), ({97: 1, 10007: 1}, "second primorial only"), ({73: 1, 101: 1}, "second primorial only"),
+                 ({101: 1, 103: 1}, "neither primorial"), ({101: 1}, "neither primorial"), ({101: 3}, "neither primorial"), ({10007: 1}, "neither primorial"),
+                 ({1000003: 1, 1000033: 1}, "neither primorial"), ({101: 1, 103: 1, 107: 1}, "neither primorial"), ({2: 3, 3: 2, 5: 1}, "first primorial")]
+        for f, cl in fgrid:
+            n = prod_fac(f)
+            for v in ("factor", "iffactorprime", "primefactor"):
+                gadd(v, [n], "factor1", f, cl)
+            for v in ("set2.vec", "set2.list", "set1.vec", "write", "divisors.n"):
+                gadd(v, [n], "set", f, cl)
+            gadd("set2.loops", [n, 100000], "set", f, cl)
+            gadd("ipp", [n], "ipp", f, cl)
+        gadd("pollard", [10403], "factor1", {101: 1, 103: 1}, "neither primorial")
+        gadd("erat", [360], "set", {2: 3, 3: 2, 5: 1}, "first primorial")
+        for pw in ((7, 2), (1009, 2), (1013, 4), (2, 10)):
+            gadd("ipp", [pw[0] ** pw[1]], "ipp", {pw[0]: pw[1]}, "p^e")
+        gadd("s.miller", [65537, 0, 2, 3], "smiller", {65537: 1}, "prime n")
+        sgrid = []
+        scripted_grid(rng, K, lambda v, a, k, f=None, kl="": sgrid.append((v, list(a), k, f, kl)))
+        ways = ["copy", "copy0", "assign", "byvalue", "heap", "copycopy", "srcgone"]
+        for w in ways:
+            for v, a, k, f, kl in grid + sgrid:
+                add(v, a, k, f, kl, way=w)
+        chk.cov["domain_ways"] = {"ways": ["orig (everything above)"] + ways, "grid_cases_per_way": len(grid) + len(sgrid)}
     chk.cov["cases_by_kind"] = {}
     for c in C:
         chk.cov["cases_by_kind"][c["kind"]] = chk.cov["cases_by_kind"].get(c["kind"], 0) + 1
@@ -1118,9 +1269,16 @@ def parse_write(s):
 QUICK_TIER = False
 
 
+WAY_COPIES = {"copy": 1, "copy0": 1, "assign": 3, "byvalue": 2, "heap": 2, "copycopy": 2, "srcgone": 1}
+
+
 def model_line(c, out):
     """line for the model driver, or None when the op has no model (GMP wrappers, Erathostene, Miller)"""
     v, a = c["v"], c["args"]
+    if c.get("way") and v == "factor":
+        # factor() of the copied OBJECT: the model copies the domain record with the copy constructor read from the source
+        t = out.split()
+        return "d.factor %d %d %s" % (WAY_COPIES.get(c["way"], 1), a[0], t[0] if t and to_int(t[0]) is not None else "1")
     base = v.split(".")[0]
     toks = out.split()
     bad = out.startswith("HANG") or out.startswith("CRASH")
@@ -1657,6 +1815,17 @@ def main(tier, replay=None):
     K, err = write_tables()
     if err:
         chk.broke("translation of the prime tables / constants from the source failed: " + err)
+    if K:
+        D = K["DOM"]
+        chk.cov["domain_members_from_clang_ast"] = {"class": "IntFactorDom<GivRandom>", "fields": D["fields"], "copy_constructor_user_provided": D["copy_ctor_user"],
+                                                   "copy_constructor": {k: list(v) for k, v in D["copy_ctor"].items()}, "operator=_user_provided": D["assign_user"],
+                                                   "operator=": {k: list(v) for k, v in D["assign"].items()}}
+        for fld in D["fields"]:
+            h = D["copy_ctor"].get(fld, ("default", None))
+            want = D["value_ctor"].get(fld)
+            if not (h[0] == "from_source" or (h[0] == "literal" and want == h)):
+                chk.broke("IntFactorDom's copy constructor does not carry the member %s over (clang AST: %s; the constructor gives it %s): "
+                          "a copied domain differs from the original" % (fld, h, want))
     # 1. proofs
     inconclusive = chk.cov.setdefault("inconclusive_streams", [])      # time-outs of our own tooling (machine load): recorded, never a violation
     res = vf.coq_check_props(AREA, timeout=2700)
@@ -1695,7 +1864,7 @@ def main(tier, replay=None):
     sv = sieve(1 << 17)
     cases = gen_cases(rng, tier, chk, K)
     lap("generate")
-    impl_in = "".join("%s %s\n" % (c["v"], " ".join(str(x) for x in c["args"])) for c in cases)
+    impl_in = "".join("%s%s %s\n" % ("@%s " % c["way"] if c.get("way") else "", c["v"], " ".join(str(x) for x in c["args"])) for c in cases)
     rc, iout, ierr = vf.run_lines(himpl, impl_in, timeout=3000, args=["12" if tier == "quick" else "90"])
     if rc == 124 and "[timeout]" in ierr:
         inconclusive.append("the implementation harness did not finish %d cases within 50 minutes (machine load): no verdict from this run" % len(cases))
@@ -1728,10 +1897,11 @@ def main(tier, replay=None):
     for i, c in enumerate(cases):
         out = iout[i]
         key = c["v"]
-        dist[key] = dist.get(key, 0) + 1
+        if not c.get("way"):
+            dist[key] = dist.get(key, 0) + 1
         units = (c["args"][1] - c["args"][0]) if c["kind"] in ("range", "nprange") else 1
         chk.cov["evaluations"] += units - 1
-        chk.count((c["v"], tuple(c["args"])), nontrivial=True)
+        chk.count((c.get("way"), c["v"], tuple(c["args"])), nontrivial=True)
         if c["kind"] in ("range", "nprange"):
             for n in range(c["args"][0], c["args"][1]):
                 chk.distinct.add((c["v"], n))
@@ -1739,8 +1909,19 @@ def main(tier, replay=None):
             chk.sample({"variant": c["v"], "args": [str(x)[:60] for x in c["args"]][:4], "impl": out[:80], "class": c["klass"]})
         if out.startswith("HANG") or out.startswith("CRASH"):
             hangs += 1
-        wrong = spec_check(chk, c, out, K, sv)
-        if c["kind"] == "scripted":
+        if c.get("way"):
+            # same specification as on the original object; a failure is reported with the way the object was obtained
+            sub = vf.Check.__new__(vf.Check)
+            sub.failing, sub.cov, sub.broken = [], chk.cov, chk.broken
+            wrong = spec_check(sub, c, out, K, sv)
+            for fi in sub.failing:
+                chk.fail_input(fi["site"], "domain obtained by: " + c["way"], {"variant": "@%s %s" % (c["way"], fi["case"]["variant"]), "args": fi["case"]["args"]},
+                               fi["expected"], fi["observed"], fi["detail"])
+            wy = chk.cov.setdefault("cases_by_domain_way", {})
+            wy[c["way"]] = wy.get(c["way"], 0) + 1
+        else:
+            wrong = spec_check(chk, c, out, K, sv)
+        if c["kind"] == "scripted" and not c.get("way"):
             sp = chk.cov.setdefault("scripted_paths", {})
             key = "%s: %s" % (SITE.get(c["v"], c["v"]).replace("IntFactorDom::", ""), c["klass"])
             sp[key] = sp.get(key, 0) + 1
